@@ -84,9 +84,14 @@ Definition outcome := (list event * option err)%type.
 Definition outcome_eqb_y (m obs : outcome) : bool :=
   events_eqb (fst m) (fst obs) && err_eqb (snd m) (snd obs).
 
-(** the toolchain builds before it runs: on an error only the kind of error is compared *)
+(** the toolchain builds before it runs: on an error only the kind of error is compared; when
+    one build reports several kinds of error ([Some EFuel] in the reference) any error of G fits *)
 Definition outcome_eqb_g (m obs : outcome) : bool :=
-  err_eqb (snd m) (snd obs) && match snd m with None => events_same (fst m) (fst obs) | Some _ => true end.
+  match snd obs, snd m with
+  | Some EFuel, Some _ => true
+  | _, _ => err_eqb (snd m) (snd obs)
+            && match snd m with None => events_same (fst m) (fst obs) | Some _ => true end
+  end.
 
 (** events as the generated programs print them *)
 Definition init (d : string) : event := EvInit (pth d).
